@@ -114,6 +114,11 @@ def handle (args : List String) : String :=
       | "versatiles" => showO Pyramid.render (versatilesCover cov)
       | _ => "bad-op"
     | _, _ => "bad-op"
+  | ["members", _kind, tiles] =>
+    -- tar members / directory entries in the order the container lists them (any order, duplicates)
+    match parseCoords tiles with
+    | some cs => showO Pyramid.render (coverOfCoords cs)
+    | none => "bad-op"
   | ["runs", rs] =>
     match (rs.splitOn ";").mapM (fun t => match parseNats (t.splitOn ":") with
         | some [a, b] => some (a, b)
